@@ -60,6 +60,12 @@ def run(ctx):
     lays = [l for l in all_lays if l["c"] in (0, 1)]
     ctx.extra["unreachable_table_entries"] = sorted({"%s %s" % (("GET", "SET", "POLL")[l["m"]], l["name"]) for l in lays if not l["reachable"]})
     run_batch(ctx, MODULE, CFG, c02.cases(ctx, lays, ("zero", "one"), prop="C16"), walk.OBSERVERS, sigfn, c02.negfn, chunk=6000)
+    # the nominal instances again in child interpreters started with -bb (bytes / str confusion is an error there) and with -O:
+    # a declared message type is usable in every interpreter mode (static, constructor and stream routes rotate inside the observer)
+    from . import run_opt
+
+    _pool = [i for o, i in c02.cases(ctx, [l for l in lays if l["reachable"]], ("one",), prop="C16") if o == "c02"]
+    run_opt(ctx, MODULE, CFG, "walk:c02", _pool, sigfn, flags_list=(("-bb",), ("-O", "-bb")))
     # every declared mode of a message used back to back in ONE interpreter (GET, SET, POLL of the same class/ID, ascending and
     # descending): a declared (message, mode) must stay usable whichever of its sibling modes was handled before it
     sib = [l for l in lays if l["c"] == 1 and l["reachable"] and l["pbf"]]
